@@ -36,7 +36,7 @@ LEVEL = "exploration"
 RULE = (
     "(a) all 36 (order, implicit points) pairs, exact rational reference; a pair is non-trivial when order >= 2. "
     "(b) full product config {(4,1) explicit and by default arguments,(2,1),(3,2),(4,2),(6,3)} x base dt {0.4,1} x "
-    "length x grid family member (uniform; single jitter +0.5/+-1.1/+-2/+50 %/gap x10 at every step position; equal "
+    "length x grid family member (uniform; single jitter +0.5/+-1.1/+-2/+50 %/gap x10 at every step position; two deviations of different size (x10 gap / 50 % / 2 %) at every ordered pair of positions; equal "
     "jitter pairs 2/50 % at every position with distance 1..6; periodic jitter period 2,3,4 every phase; change of "
     "dt by 2/50 % at every position; sub-threshold alternating) x signal {unit impulse at every index, t^0..t^5 x "
     "start value {0,5,-2.5}, t^3+2*impulse(i), -3.5*t^2}.  One evaluation = one integrate() call.  A (config, grid) "
@@ -207,6 +207,15 @@ def grid_specs(nt, tier):
                 for amp in ((0.5,) if big else (0.02, 0.5)):
                     specs.append({"family": "change", "pos": j, "amp": amp})
         specs.append({"family": "periodic_sub", "period": 2, "phase": 0, "amp": 0.005})
+        # two deviations of *different* size (e.g. a long first interval / gap and a later 2 % jitter):
+        # a jitter test whose threshold is taken from some other step than the current one only shows here
+        first = pos if nt <= 20 else pos[:3]
+        for j1 in first:
+            for j2 in pos:
+                if j2 <= j1 or (nt > 20 and j2 - j1 > 12 and j2 not in pos[-8:]):
+                    continue
+                for amp1, amp2 in ((9.0, 0.02), (0.5, 0.02), (0.02, 9.0)):
+                    specs.append({"family": "mixed", "pos": j1, "pos2": j2, "amp": amp1, "amp2": amp2})
     return specs
 
 
@@ -225,6 +234,9 @@ def grid_factor(spec, nt):
                 f[k] *= 1 + spec["amp"]
     elif fam == "change":
         f[spec["pos"]:] *= 1 + spec["amp"]
+    elif fam == "mixed":
+        f[spec["pos"]] *= 1 + spec["amp"]
+        f[spec["pos2"]] *= 1 + spec["amp2"]
     return f
 
 
